@@ -185,7 +185,16 @@ ATTR_VARIANTS = [
     ('kind (x|y) "x"', "kind", "enum"),
     ('toks NMTOKENS #IMPLIED', "toks", "tokens"),
     ('ref IDREF #IMPLIED', "ref", "imp"),
+    # enumerations whose values collide after slugging; the default / fixed value is a member that gets renamed
+    ('st (on|ON|off) "ON"', "st", "enumx"),
+    ('pt (x-1|x1) "x1"', "pt", "enumx"),
+    ('dot (a.b|a_b|ab) #FIXED "a_b"', "dot", "enumx"),
+    ('cs (A|a) "a"', "cs", "enumx"),
+    ('num (1|2|10) "10"', "num", "enumx"),
+    ('kw (True|true|None) #FIXED "true"', "kw", "enumx"),
 ]
+# name -> (a value a document may give, or None for #FIXED; the value of an absent attribute)
+ENUMX = {"st": ("off", "ON"), "pt": ("x-1", "x1"), "dot": (None, "a_b"), "cs": ("A", "a"), "num": ("2", "10"), "kw": (None, "true")}
 
 
 def _oracle_docs_failures(a):
@@ -236,6 +245,8 @@ def _oracle_docs_failures(a):
                         given[name] = "v1"
                     elif kind in ("imp", "default", "enum", "tokens") and ((len(name) + len(w)) % 2):
                         given[name] = {"imp": "i1", "default": "other", "enum": "y", "tokens": "t1 t2"}[kind]
+                    elif kind == "enumx" and ENUMX[name][0] is not None and ((len(name) + len(w)) % 2):
+                        given[name] = ENUMX[name][0]
                 at = "".join(f' {k}="{v}"' for k, v in given.items())
                 if ns:
                     lastp = ns["decls"][-1]
@@ -248,6 +259,21 @@ def _oracle_docs_failures(a):
                     obj = parser.from_string(doc, R)
                 except Exception as e:  # noqa: BLE001
                     yield f"DTD-valid document {doc} rejected ({opts}): {type(e).__name__}: {e}"
+                    continue
+                # "nothing retyped": an enumerated attribute is held as a member of its enumeration, also when it
+                # comes from the default / #FIXED value
+                import enum as _enum
+
+                fmap = {f.metadata.get("name", f.name): f.name for f in dataclasses.fields(R)}
+                bad_type = None
+                for i in attrs:
+                    _, name, kind = ATTR_VARIANTS[i]
+                    if kind in ("enum", "enumx") and name in fmap:
+                        v = getattr(obj, fmap[name])
+                        if v is not None and not isinstance(v, _enum.Enum):
+                            bad_type = f"document {doc}: enumerated attribute {name} is held as {v!r} ({type(v).__name__}), not as a member of its enumeration ({opts})"
+                if bad_type:
+                    yield bad_type
                     continue
                 # DTDs are prefix-sensitive: serialise with the prefixes the DTD declares
                 user_map = {p: f"urn:{p}" for p in ns["decls"]} if ns else None
@@ -266,6 +292,8 @@ def _oracle_docs_failures(a):
                         exp_attrs[name] = "F"
                     elif kind == "default" and name not in given:
                         exp_attrs[name] = "D"
+                    elif kind == "enumx" and name not in given:
+                        exp_attrs[name] = ENUMX[name][1]
                     elif kind == "enum" and name not in given:
                         exp_attrs[name] = "x"
                 if ns:
@@ -513,11 +541,56 @@ def impl_dtd_elem(a):
         return err("LEAK:" + type(e).__name__)
 
 
+# ------------------------------------------------------------------ defaults of enumeration-typed fields (Gen/EnumDefault.lean)
+def gen_enum_default(rng, tier):
+    """every value set x every member as default, pairs of members as token-list default, a non-member"""
+    for vs in G.ENUM_SETS:
+        try:
+            members = G.real_enum_members(vs)[1]
+        except Exception:  # noqa: BLE001
+            continue
+        for v in vs:
+            yield {"values": vs, "members": members, "default": v, "tokens": False}
+        for v1 in vs:
+            for v2 in vs:
+                if v1 != v2:
+                    yield {"values": vs, "members": members, "default": f"{v1} {v2}", "tokens": True}
+        yield {"values": vs, "members": members, "default": "zzz", "tokens": False}
+        yield {"values": vs, "members": members, "default": f" {vs[-1]}\t{vs[0]}  nope ", "tokens": True}
+    pool = ["a", "A", "a-1", "a1", "a_1", "b.c", "b_c", "bc", "B-C", "1", "01", "class", "Class", "x y"]
+    for _ in range(n_cases(tier, 60, 1500)):
+        vs = rng.sample(pool, rng.randint(2, 5))
+        try:
+            members = G.real_enum_members(vs)[1]
+        except Exception:  # noqa: BLE001
+            continue
+        toks = rng.random() < 0.4
+        d = " ".join(rng.sample(vs, rng.randint(1, min(3, len(vs))) if toks else 1))
+        yield {"values": vs, "members": members, "default": d, "tokens": toks}
+
+
+def impl_enum_default(a):
+    try:
+        return ok(G.real_enum_default(a["values"], a["default"], a["tokens"]))
+    except AssertionError as e:
+        return err("SHAPE:" + str(e)[:60])
+    except Exception as e:  # noqa: BLE001
+        return err("LEAK:" + type(e).__name__)
+
+
+def classify_enum_default(a, out):
+    renamed = sum(1 for m in a["members"] if m["name"] != m["value"])
+    hit = [m for m in a["members"] if m["value"] in a["default"].split() or m["value"] == a["default"]]
+    return f"renamed={min(renamed, 3)}/{'tokens' if a['tokens'] else 'single'}/{'default-renamed' if any(m['name'] != m['value'] for m in hit) else 'default-plain' if hit else 'no-member'}"
+
+
 CORRS = [
     Corr("c16.e2e", gen_e2e, impl_e2e, spec=spec_e2e,
          describe="spec-level: DTD (content model, ATTLIST variants, xmlns declarations) -> real pipeline (default and compound fields) -> strict parse of valid documents -> re-serialise; expected: faithful"),
     Corr("gen.dtd_nsmap", gen_nsmap, impl_nsmap, nontrivial=lambda a, o: len(a["attrs"]) > 1,
          describe="DtdParser.build_ns_map on constructed attribute lists vs model"),
+    Corr("gen.enum_default", gen_enum_default, impl_enum_default, classify=classify_enum_default,
+         describe="enumerations whose values collide after slugging (renamed by the real RenameDuplicateAttributes): SanitizeAttributesDefaultValue.is_valid_enum_type placeholder and the member values Filters.field_default_enum / constant_name resolve it to vs model"),
     Corr("gen.dtd_attr", gen_dtd_attr, impl_dtd_attr, classify=classify_dtd_attr,
          describe="DtdMapper.build_attribute / build_attribute_restrictions on constructed DtdAttribute objects (also ungrammatical keyword/value combinations) vs model"),
     Corr("gen.dtd_attr_fields", gen_dtd_attr_fields, impl_dtd_attr_fields, classify=classify_dtd_attr,
